@@ -49,6 +49,11 @@ Definition SIG_SSH_KEYSEQ := 18%N.
    backend that takes the request and stays silent pins the handler (scenario 1 = silent backend) *)
 Definition SIG_PROXY_BACKEND := 19%N.
 
+(* tftp (service 17: whole uploads): the "listeners" slot carries the number of completed uploads
+   whose state the service still holds (last block not acknowledged, or a further DATA block
+   from the same address still accepted) *)
+Definition SIG_TFTP_UPLOAD_KEPT := 20%N.
+
 Definition all_back (k : case) : bool := forallb (fun o => (w_out o <? 2)%N) (w_obs k).
 
 Fixpoint lists_eqb (a b : list (list bytes)) : bool :=
@@ -89,8 +94,8 @@ Definition case_sigs (k : case) : list N :=
          else if (w_out o =? 3)%N && ((w_svc k =? 13) || (w_svc k =? 16))%N && (w_scenario k =? 1)%N then SIG_PROXY_BACKEND
          else SIG_NO_RETURN]
       else (if w_gor o =? 0 then [] else [SIG_GOROUTINES]) ++
-           (if w_lis o =? 0 then [] else [SIG_LISTENERS]) ++
-           (if w_fds o - w_lis o =? 0 then [] else [SIG_DESCRIPTORS])
+           (if w_lis o =? 0 then [] else [if (w_svc k =? 17)%N then SIG_TFTP_UPLOAD_KEPT else SIG_LISTENERS]) ++
+           (if (if (w_svc k =? 17)%N then w_fds o else w_fds o - w_lis o) =? 0 then [] else [SIG_DESCRIPTORS])
   end.
 
 Definition violations (cs : list case) : list (N * N) :=
